@@ -143,6 +143,38 @@ def main():
             if j % 9 == 8:
                 v = [x * 2.0 ** -30 for x in v]              # very small magnitude
             traces.append(one_trace(tid, n, table_of(n, [float(x) for x in v]), "exact", "exact"))
+        # additive and nearly additive FLOAT games whose singleton values have both signs -- including weights that cancel at the
+        # grand coalition, so that |v(N)| is far below the magnitude of the table (seed C15-d); tabulated the way the library's own
+        # `additive` generator does it (one in-place float addition per player)
+        for j in range(max(6, a.exact // 2)):
+            tid += 1
+            kind = j % 6
+            w = [rng.uniform(-1, 1) for _ in range(n)]
+            if kind in (1, 2, 4):
+                # decimal weights cancel at the grand coalition only up to rounding: v(N) is a residue such as 5.6e-17
+                w = [round(x, rng.choice([1, 2])) for x in w]
+                w[-1] = round(-math.fsum(w[:-1]), 2)
+            if kind == 2:
+                w = [x * 2.0 ** rng.choice([-30, 20]) for x in w]
+            if kind == 3:
+                w = [abs(x) for x in w]
+            arr = np.zeros(2 ** n)
+            order = list(range(n))
+            rng.shuffle(order)
+            for i in order:
+                arr[np.arange(2 ** n) & 2 ** i != 0] += w[i]
+            fam_name = "float_additive"
+            if kind in (4, 5):                              # the same weights with a genuine surplus on top: not additive
+                sur = rng.choice([0.5, 3.0, 2.0 ** -10])
+                for c in range(2 ** n):
+                    k = bin(c).count("1")
+                    if k >= 2:
+                        arr[c] += sur * (k - 1) / (n - 1)
+                fam_name = "float_cancelling_surplus"
+            try:
+                traces.append(one_trace(tid, n, table_of(n, arr), "quant", fam_name))
+            except D.DriverError:
+                skipped += 1
         for fam in fams:
             for s in range(a.seeds):
                 tid += 1
